@@ -230,6 +230,7 @@ const prelude = `(set-option :produce-models true)
 (declare-fun sat (Str Int) Int)
 (declare-fun str_empty () Str)
 (assert (= (slen str_empty) 0))
+(assert (forall ((s Str)) (! (=> (= (slen s) 0) (= s str_empty)) :pattern ((slen s)))))
 (define-fun go_div ((a Int) (b Int)) Int (ite (>= a 0) (ite (> b 0) (div a b) (- (div a (- b)))) (ite (> b 0) (- (div (- a) b)) (div (- a) (- b)))))
 (define-fun go_mod ((a Int) (b Int)) Int (ite (>= a 0) (mod a b) (- (mod (- a) b))))
 (define-fun imin ((a Int) (b Int)) Int (ite (< a b) a b))
